@@ -133,6 +133,11 @@ def validation_scripts(seed, n_random):
     # rc unit tests: try_unwrap / get_mut / make_mut / raw round trips
     out.append(('test-try-unwrap', {'ops': [N(0, 'a'), C('a', 'b'), {'op': 'try_unwrap', 'h': 'a', 'as': 'a2'}, D('b'), {'op': 'downgrade', 'h': 'a2', 'as': 'w'},
                                             {'op': 'try_unwrap', 'h': 'a2', 'as': 'v'}, {'op': 'upgrade', 'w': 'w'}, {'op': 'drop_value', 'v': 'v'}, {'op': 'wdrop', 'w': 'w'}]}))
+    # test_show / hashing: what Rc<T>'s Hash, Display, Debug, Pointer and Weak<T>'s Debug feed to the hasher / formatter
+    out.append(('test-hash-fmt', {'ops': [N(0, 'a'), N(1, 'b'), C('b', 't'), {'op': 'store', 'via': 'a', 'h': 't'}, {'op': 'downgrade', 'h': 'a', 'as': 'w'},
+                                          {'op': 'hash', 'h': 'a'}, {'op': 'fmt_display', 'h': 'a'}, {'op': 'fmt_debug', 'h': 'b'}, {'op': 'fmt_pointer', 'h': 'b'},
+                                          {'op': 'wfmt_debug', 'w': 'w'}, {'op': 'make_mut', 'h': 'a'}, {'op': 'hash', 'h': 'a'}, {'op': 'fmt_display', 'h': 'a'}, {'op': 'fmt_pointer', 'h': 'a'},
+                                          D('a'), {'op': 'wfmt_debug', 'w': 'w'}, {'op': 'wdrop', 'w': 'w'}, D('b')]}))
     out.append(('test-get-mut', {'ops': [N(0, 'a'), {'op': 'get_mut', 'h': 'a'}, C('a', 'b'), {'op': 'get_mut', 'h': 'a'}, D('b'), {'op': 'downgrade', 'h': 'a', 'as': 'w'},
                                          {'op': 'get_mut', 'h': 'a'}, {'op': 'wdrop', 'w': 'w'}, {'op': 'get_mut', 'h': 'a'}, D('a')]}))
     out.append(('test-make-mut', {'ops': [N(0, 'a'), {'op': 'make_mut', 'h': 'a'}, C('a', 'b'), {'op': 'make_mut', 'h': 'a'}, {'op': 'strong_count', 'h': 'a'},
@@ -730,9 +735,34 @@ def leave_by_api_items(tier, seed):
     return items
 
 
+def weak_after_death_items(tier, seed):
+    """Weak handles that outlive their object and are then cloned / sent through into_raw + from_raw / compared before they are
+    dropped: the bare allocation must go when the last of them goes"""
+    items = []
+    R = lambda i, j: (i, j, True, False)
+    o = {'expect_all_freed': True, 'panics_ok': True}
+    for (n, e, nm) in [(1, [], 'plain1'), (2, [R(0, 1)], 'owner-target'), (2, [R(0, 1), R(1, 0)], 'ring2'), (1, [(0, 0, True, False)], 'selfclone1')]:
+        for tgt in range(n):
+            for when in ('raw-after-death', 'raw-across-death', 'clone-after-death'):
+                ops = F.build_ops(n, e, extras=False, wextras=False) + [{'op': 'wextras', 'h': H(tgt), 'n': 'w%d' % tgt}, {'op': 'downgrade', 'h': H(tgt), 'as': 'ow'}]
+                if when == 'raw-across-death':
+                    ops += [{'op': 'w_into_raw', 'w': 'ow', 'as': 'wr'}]
+                ops += F.drop_ops([('h', i) for i in range(n)])
+                if when == 'raw-after-death':
+                    ops += [{'op': 'w_into_raw', 'w': 'ow', 'as': 'wr'}]
+                if when == 'clone-after-death':
+                    ops += [{'op': 'wclone', 'w': 'ow', 'as': 'ow2'}, {'op': 'w_ptr_eq', 'a': 'ow', 'b': 'ow2'}, {'op': 'wdrop', 'w': 'ow2'}]
+                else:
+                    ops += [{'op': 'w_from_raw', 'r': 'wr', 'as': 'ow'}]
+                ops += [{'op': 'upgrade', 'w': 'ow'}, {'op': 'w_strong_count', 'w': 'ow'}, {'op': 'drop_all_wextras', 'obj': tgt}, {'op': 'w_weak_count', 'w': 'ow'}, {'op': 'wdrop', 'w': 'ow'}]
+                items.append(dict(prop='C04', name='weak-after-death %s %s on %d' % (nm, when, tgt), script={'ops': ops}, sym=True, oracles={'C04', 'C05'}, accept_props=['C04', 'C05'],
+                                  relabel=True, opts=o, layouts=std_layouts(n, tier, seed)[:2]))
+    return items
+
+
 def items_C04(tier, seed, P):
     o = {'expect_all_freed': True}
-    return (leave_by_api_items(tier, seed) + weak_graph_items('C04', tier, seed, {'C04'}, opts=o, end_all=True)
+    return (leave_by_api_items(tier, seed) + weak_after_death_items(tier, seed) + weak_graph_items('C04', tier, seed, {'C04'}, opts=o, end_all=True)
             + weak_graph_items('C04', tier, seed, {'C04'}, opts=o, end_all=True, dtor_upgrades=False, one_weak=True)     # the only Weak lives inside a value
             + lemma_items('C04', ['weakdrop']))
 
@@ -768,6 +798,18 @@ def items_C16(tier, seed, P):
                         base.append({'op': 'on_drop', 'obj': actor, 'do': [{'op': 'clone', 'h': '@%d' % k, 'as': 'zz'}]})
                     for seq in F.drop_sequences(n, n)[:2 if tier == 'quick' else None]:
                         ops = list(base) + F.drop_ops(seq)
+                        if what == 'clone' and 'noop' not in nm:
+                            # the acting value also holds the ONLY Weak to the object behind handle @k; its destructor lets go of that
+                            # Weak first, allocates something fresh, and only then clones (or drops) the handle
+                            tgt = [j for (i, j, r, s) in e if i == actor and s != 'noop'][k]
+                            for last in ('clone', 'drop'):
+                                o2 = F.build_ops(n, e, extras=True) + [{'op': 'downgrade', 'h': H(tgt), 'as': 'lw'}, {'op': 'store_weak', 'via': H(actor), 'w': 'lw'}]
+                                o2.append({'op': 'on_drop', 'obj': actor, 'do': [{'op': 'self_take_weak', 'slot': 0, 'as': 'lw2'}, {'op': 'wdrop', 'w': 'lw2'}, {'op': 'new', 'obj': n + 5, 'as': 'fresh'}] +
+                                           ([{'op': 'clone', 'h': '@%d' % k, 'as': 'zz'}] if last == 'clone' else [{'op': 'self_take', 'slot': k, 'as': 'zz'}, {'op': 'drop', 'h': 'zz'}, {'op': 'strong_count', 'h': 'fresh'}])})
+                                o2 += F.drop_ops(seq) + [{'op': 'drop_if', 'h': 'fresh'}]
+                                items.append(dict(prop='C16', name='%s dtor%d drops-last-Weak-then-%s @%d drops=%s' % (nm, actor, last, k, ''.join('%s%d' % s for s in seq)),
+                                                  script={'ops': o2}, sym=True, oracles={'C16', 'C06'}, accept_props=['C16', 'C06'], relabel=True,
+                                                  opts={'abort_ok': 'clone-of-dead', 'panics_ok': True, 'count_after_each': False}, layouts=std_layouts(n, tier, seed)[:2]))
                         items.append(dict(prop='C16', name='%s dtor%d %s @%d drops=%s' % (nm, actor, what, k, ''.join('%s%d' % s for s in seq)),
                                           script={'ops': ops}, sym=True, oracles={'C16'}, opts={'abort_ok': 'clone-of-dead', 'panics_ok': True},
                                           layouts=std_layouts(n, tier, seed)[:3] + ([('rank', tuple(range(n)), (2, 0, 1), 'kind', False), ('rank', tuple(range(n)), (1, 2, 0), 'obj', False)] if 'noop' in nm else [])))
@@ -1184,6 +1226,8 @@ def items_C15(tier, seed, P):
         if n >= 3:
             fams.setdefault('ring+chord', []).append((n, [R(i, (i + 1) % n) for i in range(n)] + [R(0, 2)]))
         fams.setdefault('ring+selfclone', []).append((n, [R(i, (i + 1) % n) for i in range(n)] + [(0, 0, True, False)]))
+        # every member also carries the no-effect same-handle self adoption (a Loopback key per member in the trace result)
+        fams.setdefault('ring-all-noop-self', []).append((n, [R(i, (i + 1) % n) for i in range(n)] + [(i, i, True, 'noop') for i in range(n)]))
         if n >= 2:
             # hub: object 0 adopts every other object and is adopted back (long work list)
             fams.setdefault('hub', []).append((n, [R(0, i) for i in range(1, n)] + [R(i, 0) for i in range(1, n)]))
@@ -1216,7 +1260,7 @@ def finish_C15(tier, seed, P, native, results, scratch):
         for (nn, ee) in [(int(r_['name'].split('N=')[1]), r_) for r_ in results if r_['name'].startswith(f + ' N=')]:
             pass
         def per_unit(n, key):
-            edges = {'ring': n, 'clique': n * (n - 1), 'ring+chord': n + 1, 'ring+selfclone': n + 1, 'hub': 2 * (n - 1)}.get(f, n)
+            edges = {'ring': n, 'clique': n * (n - 1), 'ring+chord': n + 1, 'ring+selfclone': n + 1, 'hub': 2 * (n - 1), 'ring-all-noop-self': 2 * n}.get(f, n)
             return d[n].get(key, 0) / float(n + edges) / max(1, d[n].get('traces', 1))
         big = [n for n in ns if n >= 3]
         if len(big) >= 2:
@@ -1249,6 +1293,13 @@ def finish_C15(tier, seed, P, native, results, scratch):
             scale[n] = dict(rc=pr.returncode, destroyed=int(m.group(2)) if m else None, ms=int(m.group(3)) if m else None)
         except subprocess.TimeoutExpired:
             scale[n] = dict(rc='timeout', destroyed=None, ms=None)
+    for n in (50000,):
+        try:
+            pr = subprocess.run([native.bin, '--ring-noop', str(n), '128'], capture_output=True, text=True, timeout=600)
+            m = re.search(r'ring ok n=(\d+) destroyed=(\d+) ms=(\d+)', pr.stdout)
+            scale['noop-self ring %d' % n] = dict(rc=pr.returncode, destroyed=int(m.group(2)) if m else None, ms=int(m.group(3)) if m else None, n=n)
+        except subprocess.TimeoutExpired:
+            scale['noop-self ring %d' % n] = dict(rc='timeout', destroyed=None, ms=None, n=n)
     hub = {}
     for n in (20000, 80000):
         best = None
@@ -1272,8 +1323,8 @@ def finish_C15(tier, seed, P, native, results, scratch):
     if not bad and hub[20000]['ms'] and hub[80000]['ms'] and hub[80000]['ms'] > 1000 and hub[80000]['ms'] > 9.0 * max(hub[20000]['ms'], 40):
         bad = 'time is not linear: hub of 20000 objects %d ms, 80000 objects %d ms' % (hub[20000]['ms'], hub[80000]['ms'])
     for n, s in scale.items():
-        if s['rc'] != 0 or s['destroyed'] != n:
-            bad = 'ring of %d objects on a 128 KiB stack: rc=%s destroyed=%s' % (n, s['rc'], s['destroyed'])
+        if s['rc'] != 0 or s['destroyed'] != s.get('n', n):
+            bad = 'ring of %s objects on a 128 KiB stack: rc=%s destroyed=%s' % (n, s['rc'], s['destroyed'])
     # sizes differ by a factor of 4: linear cost gives about 4-6x (hash table growth, cache effects), quadratic 16x
     if not bad and scale[50000]['ms'] and scale[200000]['ms'] and scale[200000]['ms'] > 1000 and scale[200000]['ms'] > 9.0 * max(scale[50000]['ms'], 40):
         bad = 'time is not linear: %d ms for 50000 objects, %d ms for 200000' % (scale[50000]['ms'], scale[200000]['ms'])
@@ -1483,7 +1534,10 @@ def items_C09(tier, seed, P):
     shapes += [(2, [R(0, 1), R(0, 1), R(1, 0)], 'N2[0=>1 x2, 1=>0]'), (3, [R(0, 1), R(0, 1), R(1, 2), R(2, 1)], 'N3[tail x2 into ring]')]
     # members that also carry a no-effect same-handle self adoption: a second (Loopback) key per node in every trace result
     shapes += [(2, [R(0, 1), R(1, 0), (0, 0, True, 'noop')], 'ring2+noop-self@0'), (2, [R(0, 1), (1, 1, True, 'noop')], 'owner-target+noop-self@1'),
-               (3, F.named_shapes(3)['ring3'] + [(1, 1, True, 'noop')], 'ring3+noop-self@1')]
+               (3, F.named_shapes(3)['ring3'] + [(1, 1, True, 'noop')], 'ring3+noop-self@1'),
+               # an outside owner that carries the no-effect record and dies first (its purge of the members it adopted must be complete)
+               (2, [(0, 0, True, 'noop'), R(0, 1), (1, 1, True, False)], 'noop-self owner of a selfclone'),
+               (3, [(0, 0, True, 'noop'), R(0, 1), R(0, 2), R(1, 2), R(2, 1)], 'noop-self hub of ring2')]
     for (n, e, nm) in shapes:
         base = F.build_ops(n, e, extras=True)
         for i in range(n):
@@ -1688,6 +1742,8 @@ def items_C07(tier, seed, P):
         'deref': ([{'op': 'deref', 'h': 'a'}], True),
         'compare': ([{'op': 'clone', 'h': 'a', 'as': 'pe'}, {'op': 'eq', 'a': 'a', 'b': 'pe'}, {'op': 'ne', 'a': 'a', 'b': 'pe'}, {'op': 'le', 'a': 'a', 'b': 'pe'},
                      {'op': 'gt', 'a': 'a', 'b': 'pe'}, {'op': 'cmp', 'a': 'a', 'b': 'pe'}, {'op': 'partial_cmp', 'a': 'pe', 'b': 'a'}, {'op': 'drop', 'h': 'pe'}], True),
+        # hashing and formatting: what reaches the Hasher / Formatter (T::hash, T's Display / Debug, the value's address, "(Weak)")
+        'hash-fmt': ([{'op': 'hash', 'h': 'a'}, {'op': 'fmt_display', 'h': 'a'}, {'op': 'fmt_debug', 'h': 'a'}, {'op': 'fmt_pointer', 'h': 'a'}, {'op': 'wfmt_debug', 'w': 'wa'}], True),
     }
     L = 2 if tier == 'quick' else 3
     names = sorted(calls)
